@@ -1,6 +1,6 @@
 /* S-connp: stream-API operation sequences on a connection parser, with scripted callbacks.
  * case: connp \t cfg \t script \t ops
- *   cfg    = p=<personality>,hard=<n>,soft=<n>,maxtx=<n>,auto=<0|1>,spaceuri=<0|1>,lws=<code>[,full=1]
+ *   cfg    = p=<personality>,hard=<n>,soft=<n>,maxtx=<n>,auto=<0|1>,spaceuri=<0|1>,lws=<code>[,full=1][,prog=1]
  *            full=1 (implementation-only runs of C01: the model does not cover these parts) switches on request and response
  *            decompression, cookie and authorization parsing and the urlencoded and multipart content handlers
  *   script = hook:callno:action;...  (or -)   action: 0 OK 1 DECLINED 2 STOP 3 ERROR 4 reg tx req-body hook
@@ -21,7 +21,7 @@
 #define CP_NHOOKS 21
 #define CP_MAXCALLS 64
 /* per-connection driver state (one per connection so that several connections can be interleaved / run on threads) */
-struct cp_ctx { unsigned char script[CP_NHOOKS][CP_MAXCALLS]; int calls[CP_NHOOKS]; long serial; int first_ev; };
+struct cp_ctx { unsigned char script[CP_NHOOKS][CP_MAXCALLS]; int calls[CP_NHOOKS]; long serial; int first_ev; int prog; };
 static __thread struct cp_ctx cp_default_ctx;
 static __thread struct cp_ctx *cp_cur;
 #define cp_script (cp_cur->script)
@@ -77,6 +77,8 @@ static void cp_ev_begin(int h, htp_tx_t *tx) {
     if (!cp_first_ev) putchar(' ');
     cp_first_ev = 0;
     printf("h%d.%ld", h, cp_txid(tx));
+    /* cfg prog=1 (library-only runs of C05): the two progress indicators as the callback sees them */
+    if (cp_cur->prog && tx != NULL) printf("~%d.%d", (int) tx->request_progress, (int) tx->response_progress);
 }
 static int cp_tx_body_cb_req(htp_tx_data_t *d);
 static int cp_tx_body_cb_res(htp_tx_data_t *d);
@@ -230,6 +232,7 @@ static int drv_connp(char **f, int nf) {
     if (nf < 4) { printf("?args"); return 1; }
     cp_cur = &cp_default_ctx;
     cp_load_script(f[2]);
+    cp_cur->prog = (int) cp_kv(f[1], "prog", 0);
     size_t cp_heap0 = CP_HEAP_NOW();      /* ASan builds: live heap bytes before the library is used ... */
     htp_cfg_t *cfg = cp_make_cfg(f[1]);
     htp_connp_t *connp = htp_connp_create(cfg);
